@@ -497,7 +497,11 @@ func randomHistory(h *NetH, r *rand.Rand, cfg genCfg) {
 			if r.Intn(10) == 0 {
 				rules = append(rules, "bad rule")
 			}
-			h.SetRules(i, rules)
+			if r.Intn(3) == 0 { // the change happens in a branch of the state that is thrown away
+				h.SetRulesDiscarded(i, rules)
+			} else {
+				h.SetRules(i, rules)
+			}
 		default:
 			h.Tick(time.Duration(1+r.Intn(600)) * time.Second)
 		}
@@ -520,13 +524,25 @@ type netFamily struct {
 	Run  func(h *NetH)
 }
 
+// application-level families run in addition to the packet-layer ones by a net property's check
+// (token sends for C09, ...): the cases then are Harness/Mixed.v cases
+var netPropAppFams = map[string]func() []appFamily{}
+
 func runNetProperty(t *testing.T, prop string, sigPrefixes []string, fams []netFamily, nRandom int, cfg genCfg, rule string) {
 	out := envOut(t)
 	rep := newReport(prop)
 	rep.Rule = rule
 	cs := &CaseSet{Prop: prop, Imports: "Harness.Net Packet.Types Packet.Keeper Net.Net", Mismatch: "net_mismatches", Shard: 12}
+	wrapNet := func(s string) string { return s }
+	appFams := netPropAppFams[prop]
+	if appFams != nil {
+		cs.Imports = "Harness.Mixed Packet.Types Packet.Keeper Net.Net Apps.Nft Apps.Mt Apps.App"
+		cs.Mismatch = "mixed_mismatches"
+		cs.Shard = 6
+		wrapNet = func(s string) string { return "MNet (" + s + ")" }
+	}
 	finish := func(name string, h *NetH) {
-		cs.Add(h.CaseTerm(), map[string]any{"family": name, "steps": h.Descs})
+		cs.Add(wrapNet(h.CaseTerm()), map[string]any{"family": name, "steps": h.Descs})
 		acc, rej := 0, 0
 		for _, d := range h.Descs {
 			rep.Evaluations++
@@ -575,6 +591,40 @@ func runNetProperty(t *testing.T, prop string, sigPrefixes []string, fams []netF
 		}
 		randomHistory(h, r, c2)
 		finish(fmt.Sprintf("random-%d", k), h)
+	}
+	if appFams != nil {
+		for _, f := range appFams() {
+			h := newAppH(t, 3)
+			mesh(h.NetH)
+			o := newTokOracle(h)
+			f.Run(h, o)
+			cs.Add("MApp ("+h.CaseTerm()+")", map[string]any{"family": "app:" + f.Name, "steps": briefAppSteps(h.Descs)})
+			acc, rej := 0, 0
+			for _, d := range h.Descs {
+				rep.Evaluations++
+				rep.Count("op:" + d.Op)
+				if d.OK {
+					acc++
+					rep.Count("accepted:" + d.Op)
+				} else {
+					rej++
+					rep.Count("rejected:" + d.Op)
+				}
+			}
+			if acc > 0 && rej > 0 {
+				rep.Nontrivial(fmt.Sprint(briefAppSteps(h.Descs)))
+			}
+			all := append(append([]OracleFailure{}, o.fails...), h.Fails...)
+			all = append(all, newNetOracle(h.NetH).run()...)
+			for _, fl := range all {
+				for _, pre := range sigPrefixes {
+					if strings.HasPrefix(fl.Signature, pre) {
+						rep.Fail(fl.Signature, fl.What, map[string]any{"family": "app:" + f.Name, "failure": fl.Input, "steps": briefAppSteps(h.Descs)})
+					}
+				}
+			}
+			rep.Count("family:app:" + f.Name)
+		}
 	}
 	cs.Write(t, out)
 	rep.Write(t, out)
